@@ -145,6 +145,7 @@ static void gen_params(const char *profile, uint64_t seed)
 		/* ownership sweep: the run ends at once; the triple is what matters */
 		P.m_pred = 0;
 		P.m_budget = 0;
+		P.m_budget_var = PICK(&rc, 0, 0, 0, 2); /* sometimes nothing ever becomes true: the run ends because no event is left */
 		P.m_init_ev = 0;
 		P.m_mem = 0;
 		P.m_rng = 0;
